@@ -111,8 +111,8 @@ class _DelegatedWormhole:
         self._delegate.wormhole_got_code(code)
 
     def got_key(self, key):
+        self._key = key  # for derive_key(), also from inside the callback
         self._delegate.wormhole_got_unverified_key(key)
-        self._key = key  # for derive_key()
 
     def got_verifier(self, verifier):
         self._delegate.wormhole_got_verifier(verifier)
